@@ -53,7 +53,9 @@ func MustParseTime(value string) Time {
 // TimeFromProto takes a proto Time and returns a System Time.
 func TimeFromProto(proto *dtpb.Time) Time {
 	duration := fhirconv.TimeToDuration(proto)
-	t := time.UnixMicro(duration.Microseconds()).In(time.UTC)
+	// Anchor on the same zero date that ParseTime produces, so that a Time
+	// converted from a proto compares equal to the same Time parsed from text.
+	t := time.Date(0, time.January, 1, 0, 0, 0, 0, time.UTC).Add(duration)
 	var l layout
 	switch proto.Precision {
 	case dtpb.Time_MICROSECOND:
